@@ -5,8 +5,10 @@ import (
 	"go/token"
 	"go/types"
 	"math"
+	"reflect"
 	"regexp"
 	"strconv"
+	"strings"
 )
 
 // jsonBlob is a value that went through the encoding/json stub: Marshal turns a value into an opaque
@@ -118,6 +120,102 @@ func (r *Run) floatsMarshalable(v Value, depth int) bool {
 	return true
 }
 
+// jsonFieldName returns the name under which encoding/json stores field i of st ("" = not stored) and whether
+// the field is left out when empty.
+func jsonFieldName(st *types.Struct, i int) (string, bool) {
+	f := st.Field(i)
+	if !f.Exported() {
+		return "", false
+	}
+	tag := reflect.StructTag(st.Tag(i)).Get("json")
+	if tag == "-" {
+		return "", false
+	}
+	name, opts, _ := strings.Cut(tag, ",")
+	if name == "" {
+		name = f.Name()
+	}
+	omit := false
+	for _, o := range strings.Split(opts, ",") {
+		if o == "omitempty" || o == "omitzero" {
+			omit = true
+		}
+	}
+	return name, omit
+}
+
+// jsonEmpty decides (forking on symbolic values) whether encoding/json's omitempty leaves v out.
+func (r *Run) jsonEmpty(v Value) bool {
+	switch x := v.(type) {
+	case Num:
+		if x.T == nil {
+			return x.C == 0
+		}
+		return r.branch(r.numBinop(token.EQL, x, Num{W: x.W, Signed: x.Signed}).(Bool))
+	case Bool:
+		if x.T == nil {
+			return !x.C
+		}
+		return !r.branch(x)
+	case float64:
+		return x == 0
+	case FSym:
+		return r.branch(Bool{T: r.TT.mk("fp.isZero", 0, 0, "", x.T)})
+	case Str:
+		return len(x) == 0
+	case Slice:
+		return len(x.S) == 0
+	case *Map:
+		return x == nil || len(x.Keys) == 0
+	case Ptr:
+		return x == nil
+	case Iface:
+		return x.T == nil
+	}
+	return false
+}
+
+// jsonMerge models Unmarshal(Marshal(src)) into *dst for a value of type t: a struct is merged field by field —
+// a field reaches the destination only if the text holds it (exported, not tagged "-", not left out by omitempty,
+// its name not shared with another field of the struct); everything else of the destination keeps what it held.
+// Other kinds are replaced as a whole (the identity round trip of the opaque token).
+func (r *Run) jsonMerge(dst *Value, src Value, t types.Type, depth int) {
+	st, ok := t.Underlying().(*types.Struct)
+	ds, ok2 := (*dst).(Struct)
+	ss, ok3 := src.(Struct)
+	if !ok || !ok2 || !ok3 || depth > 4 || len(ds) != st.NumFields() || len(ss) != st.NumFields() {
+		*dst = src
+		return
+	}
+	names := map[string]int{}
+	for i := 0; i < st.NumFields(); i++ {
+		if n, _ := jsonFieldName(st, i); n != "" && !st.Field(i).Embedded() {
+			names[strings.ToLower(n)]++
+		}
+	}
+	out := append(Struct{}, ds...)
+	for i := 0; i < st.NumFields(); i++ {
+		n, omit := jsonFieldName(st, i)
+		if n == "" {
+			continue
+		}
+		if !st.Field(i).Embedded() && names[strings.ToLower(n)] > 1 {
+			continue // two fields under one name: encoding/json drops both
+		}
+		if omit && r.jsonEmpty(ss[i]) {
+			continue
+		}
+		if _, isStruct := st.Field(i).Type().Underlying().(*types.Struct); isStruct {
+			cell := out[i]
+			r.jsonMerge(&cell, ss[i], st.Field(i).Type(), depth+1)
+			out[i] = cell
+			continue
+		}
+		out[i] = ss[i]
+	}
+	*dst = out
+}
+
 func installMore(m *Machine) {
 	I := m.Intr
 	marshal := func(r *Run, fr *Frame, a []Value) Value {
@@ -137,7 +235,7 @@ func installMore(m *Machine) {
 	I["encoding/json.Marshal"] = marshal
 	I["encoding/json.MarshalIndent"] = marshal
 	I["encoding/json.Unmarshal"] = func(r *Run, fr *Frame, a []Value) Value {
-		r.stub("encoding/json.Unmarshal (opaque token; anything else is a syntax error)")
+		r.stub("encoding/json.Unmarshal (opaque token, merged into the destination field by field per struct tags; anything else is a syntax error)")
 		data := a[0].(Slice).S
 		dst := a[1].(Iface)
 		bs := make([]byte, len(data))
@@ -163,14 +261,17 @@ func installMore(m *Machine) {
 		}
 		// the stored value was marshalled either as T or as *T
 		pt, _ := dst.T.(*types.Pointer)
+		var src Value
 		switch {
 		case pt != nil && types.Identical(b.t, dst.T):
-			*p = deepCopy(*(b.v.(Ptr)), map[*Value]*Value{})
+			src = deepCopy(*(b.v.(Ptr)), map[*Value]*Value{})
 		case pt != nil && types.Identical(b.t, pt.Elem()):
-			*p = deepCopy(b.v, map[*Value]*Value{})
+			src = deepCopy(b.v, map[*Value]*Value{})
 		default:
 			return r.newError("json: cannot unmarshal into Go value of a different type")
 		}
+		// field-wise: only what the text would hold reaches the destination (struct tags, omitempty, unexported)
+		r.jsonMerge(p, src, pt.Elem(), 0)
 		// a mutex inside the copy starts unlocked
 		return nilErr()
 	}
